@@ -184,6 +184,19 @@ def check_front_end(repo: Repo, where: str, thorough: bool = False, only=None) -
             bad.append(("a grammar text with an unterminated block comment is accepted", f"{text!r}: rules {list(rules) if isinstance(rules, dict) else rules!r}"))
         elif not (isinstance(rules, dict) and list(rules) == ["r"]):
             bad.append(("a block comment swallows or splits rules", f"{text!r}: rules {list(rules) if isinstance(rules, dict) else rules!r}"))
+    # comments inside comments: a line comment is not recognised inside a block comment (its "*/" closes the block), a
+    # block opener or closer inside a line comment is text, and what follows a nested block comment is still inside
+    # the outer one
+    for text, names in (("/* /* a */ // */\nr = { a }\n// */\ns = { a }", ["r", "s"]), ("/* // */ r = { a }", ["r"]), ("// /* \nr = { a }\n// */\ns = { a }", ["r", "s"]),
+                        ("/* x */ // /* y\nr = { a }", ["r"]), ("/* /* a */ b */ r = { a } // */ c", ["r"]), ("r = { a } /* /* a */ // */\n/* */ s = { a }", ["r", "s"])):
+        n += 1
+        try:
+            rules = front(text)
+        except ModelRaise as err:
+            bad.append(("a grammar text with comments inside comments is refused", f"{text!r}: {err}"))
+            continue
+        if not (isinstance(rules, dict) and list(rules) == names):
+            bad.append(("comments inside comments swallow or split rules", f"{text!r}: rules {list(rules) if isinstance(rules, dict) else rules!r}, denoted {names}"))
     # malformed shapes: a syntax error, nothing else
     malformed = ["r = { a ~ }", "r = { ~ a }", "r = { a ~ ~ b }", "r = { a | }", "r = { (a }", "r = { a) }", "r = { }", "r = { #t a }", "r = { PEEK[1.] }", "r = { 'a'.. }", "r = { a{,} }",
                  "r = { a{ } }", "r = a }", "r { a }", "= { a }", "r = { a } }", "r = { \"a }", "r = { ^ a }", "r = { PUSH a }", "r = { PUSH_LITERAL(a) }", "r = { & }"]
